@@ -33,7 +33,7 @@ STUBS = [
 ]
 OUTSIDE = ['histories longer than 3 operations', 'bodies longer than 6 bytes', 'more than 3 ASGI body events',
            'real socket-backed wsgi.input implementations with short reads']
-BUDGET = {'quick': 300, 'thorough': 2400}
+BUDGET = {'quick': 300, 'thorough': 900}
 
 
 # ------------------------------------------------------------------ WSGI
